@@ -457,6 +457,45 @@ def run(ctx):
     ctx.block('14 delimiters x 5 positions x 6 contexts x 3 renderings',
               14 * 5 * 6 * 3 // n)
 
+    # ---- strings that look like other tokens ---------------------------------
+    lookalikes = ['TRUE', 'FALSE', 'true', 'True', 'A1', '$A$1', 'Sheet1!A1',
+                  'A1:B2', '1', '1.5', '50%', '1E+3', '1e3', '#N/A', '#REF!',
+                  '#DIV/0!', 'SUM(', 'SUM(1,2)', '@SUM', '_xlfn.CONCAT', '-',
+                  '+', '=', '<>', '>=', '&', '^', ' ', '', '  ', '\n', 'None',
+                  'ARRAY', 'ARRAYROW', "'My Sheet'!A1", 'TRUE ', ' FALSE',
+                  'NULL', 'E1', '1E', '2E+', 'PI()', 'A:A', '1:1', '0', '-1']
+    for li, text in enumerate(lookalikes):
+        for ci, mk in enumerate(contexts):
+            idx += 1
+            if idx % n != sh:
+                continue
+            for variant in ({}, {'ws': True}, {'eq': False}):
+                R.one(mk(str_lit(text)), variant, 'lookalike-block')
+    ctx.block('token-lookalike strings x 6 contexts x 3 renderings',
+              len(lookalikes) * 6 * 3 // n)
+
+    # ---- zero-argument calls in every argument position ----------------------
+    zero = [('call', 'PI', []), ('call', 'TRUE', []), ('call', 'NOW', [])]
+    one = ('lit', 1, '1')
+    shapes0 = []
+    for z in zero:
+        shapes0 += [
+            ('call', 'SUM', [z]), ('call', 'SUM', [z, one]),
+            ('call', 'SUM', [one, z]), ('call', 'SUM', [one, z, one]),
+            ('call', 'SUM', [z, z]), ('call', 'ABS', [('neg', z)]),
+            ('call', 'IF', [z, ('ref', None, 1, 1, False, False),
+                            ('ref', None, 2, 1, False, False)]),
+            ('call', 'SUM', [('call', 'MAX', [z]), one]),
+            ('call', 'SUM', [('bin', '+', z, one), z]),
+            ('bin', '*', z, ('call', 'SUM', [z, ('par', z)])),
+        ]
+    for si, a in enumerate(shapes0):
+        idx += 1
+        if idx % n != sh:
+            continue
+        for variant in ({}, {'ws': True}):
+            R.one(a, variant, 'zero-arg-block')
+
     # ---- sampled ASTs ---------------------------------------------------------
     count = (300000 if thorough else 6000) // n
     variants = [
